@@ -37,6 +37,7 @@ From GoCoap Require Monitor.Model Monitor.Spec Monitor.Proofs.
 From GoCoap Require Import Server.KeepAlive Server.KeepAliveProofs.
 From GoCoap Require Import Server.Addr Server.AddrProofs Server.TokenKey Server.TokenKeyProofs.
 From GoCoap Require Import Server.OptGrow Server.OptGrowProofs Server.Queue.
+From GoCoap Require Server.Pool.
 Import ListNotations.
 Open Scope Z_scope.
 
@@ -664,3 +665,69 @@ Example C10_queue_instance :
   q_done (qrun 2 [10; 11; 12; 13; 14] [QRead; QRead; QRead; QHandle; QRead; QHandle; QRead; QRead; QHandle; QHandle; QRead; QHandle])
   = [10; 11; 12; 13; 14].
 Proof. vm_compute. reflexivity. Qed.
+
+(* ------------------------------------------------------------------ *)
+(* Round 5: who holds a pooled message on the receive path              *)
+(* ------------------------------------------------------------------ *)
+(* Server/Pool.v: the udp server has one message pool for the read loop and the connections of all peers, and the
+   pool checks nothing.  [Pool.good]: the pool and the hands are disjoint and hold no message twice -- no message
+   is in the hands of two peers, no message that was given back (ctx = nil) is still being worked on.
+   Every way through udp/client Conn.Process (too big, decode error, refused or dropped by the request monitor,
+   ping, ACK/RST of a pending message, separate ACK, context done, queued and handled, hijacked), from ANY good pool,
+   whatever message sync.Pool chooses to hand out: every release is of a message the path holds at that moment
+   (the flag stays as it was) and the pool is good afterwards. *)
+Theorem C10_pool_every_path_releases_what_it_holds : forall cap x cs p ok, Pool.good p ->
+  snd (Pool.exec cap (Pool.path_prog x) cs Pool.no_regs p ok) = ok
+  /\ Pool.good (fst (Pool.exec cap (Pool.path_prog x) cs Pool.no_regs p ok)).
+Proof. exact Pool.path_disciplined. Qed.
+Print Assumptions C10_pool_every_path_releases_what_it_holds.
+
+(* for ALL sequences of datagrams of any peers (any paths, any choices of the pool), from the pool of a server that
+   has just started (or any good one) *)
+Theorem C10_pool_all_datagram_sequences : forall cap l p, Pool.good p ->
+  snd (Pool.run_paths cap l p true) = true /\ Pool.good (fst (Pool.run_paths cap l p true)).
+Proof. exact Pool.run_paths_good. Qed.
+Print Assumptions C10_pool_all_datagram_sequences.
+
+(* for ALL interleavings of acquisitions and releases by any goroutines: as long as every release is by a holder the
+   pool stays good ... *)
+Theorem C10_pool_any_interleaving : forall cap evs p, Pool.good p -> Pool.disciplined cap p evs ->
+  Pool.good (fold_left (Pool.pstep cap) evs p).
+Proof. exact Pool.disciplined_good. Qed.
+Print Assumptions C10_pool_any_interleaving.
+
+(* ... and in a good pool what AcquireMessage hands out is in nobody's hands and no longer in the pool; two
+   acquisitions in a row (the read loop's for one peer's datagram, a reader loop's for another peer) differ *)
+Theorem C10_pool_acquired_message_is_exclusive : forall p i, Pool.good p ->
+  Pool.good (fst (Pool.acquire p i))
+  /\ Pool.held (fst (Pool.acquire p i)) = snd (Pool.acquire p i) :: Pool.held p
+  /\ ~ In (snd (Pool.acquire p i)) (Pool.held p)
+  /\ ~ In (snd (Pool.acquire p i)) (Pool.free (fst (Pool.acquire p i))).
+Proof. exact Pool.acquire_good. Qed.
+Print Assumptions C10_pool_acquired_message_is_exclusive.
+
+Theorem C10_pool_two_peers_never_share : forall p i j, Pool.good p ->
+  snd (Pool.acquire p i) <> snd (Pool.acquire (fst (Pool.acquire p i)) j).
+Proof. exact Pool.good_two_acquires_differ. Qed.
+Print Assumptions C10_pool_two_peers_never_share.
+
+(* contrast (NOT the code): a path that releases the received message and still queues it (handled and released
+   again).  ONE such datagram to a server that has just started: the last release is of a message the path does not
+   hold, the pool holds that message twice, and the next two acquisitions hand out the SAME message *)
+Theorem C10_double_release_would_share_a_message :
+  let po := Pool.exec 1024%nat Pool.doubly_released_prog [] Pool.no_regs Pool.pool_init true in
+  snd po = false
+  /\ Pool.free (fst po) = [0; 0]%nat
+  /\ ~ Pool.good (fst po)
+  /\ snd (Pool.acquire (fst po) 0%nat) = snd (Pool.acquire (fst (Pool.acquire (fst po) 0%nat)) 0%nat).
+Proof. exact Pool.double_release_shares. Qed.
+Print Assumptions C10_double_release_would_share_a_message.
+
+(* non-vacuity: a ping, a queued request, a decode error and a separate ACK from the initial pool, with the pool
+   handing out its second element where it has one *)
+Example C10_pool_instance :
+  Pool.good Pool.pool_init
+  /\ Pool.run_paths 1024%nat [(Pool.PPing, [0; 1]%nat); (Pool.PQueued, [1; 0]%nat); (Pool.PDecodeErr, [1]%nat); (Pool.PSeparate, [0]%nat)]
+       Pool.pool_init true
+     = (Pool.MkPool [1]%nat [0]%nat 2%nat, true).
+Proof. split; [exact Pool.good_init|vm_compute; reflexivity]. Qed.
